@@ -32,6 +32,9 @@ for _pid, _cfgs in {'C04': ['BufferL2', 'BufferL2_nocool', 'BufferL2_fixed', 'Bu
     F[_pid] = dict(F[_pid])
     F[_pid]['mc_quick'] = list(F[_pid]['mc_quick']) + [('BufferL2', c) for c in _cfgs]
     F[_pid]['mc_thorough'] = list(F[_pid]['mc_thorough']) + [('BufferL2', c) for c in _cfgs] + [('BufferL2', 'BufferL2_big')]
+# C05: WaitCond on its own (any cond / locker, nil context, invalid arguments): lost wake-ups at exact quiescence, "nil only
+# after the predicate returned true with the lock held", watcher goroutine gone once WaitCond has returned
+F['C05']['legs'] = [dict(driver='waitcond', profile='main', prop='all', tv='WaitCondTV', n=(160, 200, 2000, 6000), mc_quick=[], mc_thorough=[])]
 # C04: bounded delay under sustained traffic (time-stamped Size observations; free-running only)
 F['C04']['legs'] = [dict(driver='buffer', profile='sustain', prop='reclaim', tv='BufferTV', n=(0, 3, 0, 24), mc_quick=[], mc_thorough=[])]
 F['C12']['legs'] = [dict(driver='channel', profile='close', prop='close', tv='ChannelTV', n=(60, 120, 1000, 3000),
@@ -116,6 +119,13 @@ def conformance(ctx, f, mode, n, seed, name):
     ctx.distinct_nontrivial += st['nontrivial']
     ctx.samples += st.get('samples', [])[:1]
     handle_rejections(ctx, f, rej, st, mode, 'modeC' if mode == 'c' else 'modeF')
+    # situations the trace specification names as known findings: listed in known_findings.json -> KNOWN-FINDING line,
+    # not listed -> violation
+    for kname, cnt in sorted(getattr(ctx, 'tv_known', {}).items()):
+        if kname not in ctx.__dict__.setdefault('tv_known_reported', set()):
+            ctx.tv_known_reported.add(kname)
+            report(ctx, f'known:{kname}', f'{f["tv"]} met the situation "{kname}" in {cnt} validation run(s) (driver {f["driver"]}, mode {mode})',
+                   {'exec.json': dict(driver=f['driver'], profile=f['profile'], mode=mode, seed=seed, n=n, known=kname)})
 
 
 def generated(ctx, f):
